@@ -383,7 +383,17 @@ fn parse_at_rule(
             let output_index = ss.cur_output_utf8_len();
             ss.append_token(st, input, None);
             let x: &str = &x;
-            let contain_rule_list = matches!(x, "media" | "supports" | "document");
+            let contain_rule_list = [
+                "media",
+                "supports",
+                "document",
+                "layer",
+                "container",
+                "scope",
+                "starting-style",
+            ]
+            .iter()
+            .any(|name| x.eq_ignore_ascii_case(name));
             loop {
                 let r = input.try_parse::<_, _, ParseError<()>>(|input| {
                     let next = input.next()?;
